@@ -1865,6 +1865,37 @@ def install_intrinsics(E):
             return UNDEF
         return z3.If(x < 0, -x, x)
     I['llvm.abs.i32'] = i_abs
+    def mk_minmax(bits, signed, ismax):
+        def h(E, st, fr, ins, args):
+            x, y = args
+            if x is UNDEF or y is UNDEF:
+                return UNDEF
+            if type(x) is int and type(y) is int:
+                sx, sy = x, y
+                if signed:
+                    if x >> (bits - 1): sx = x - (1 << bits)
+                    if y >> (bits - 1): sy = y - (1 << bits)
+                return x if ((sx >= sy) if ismax else (sx <= sy)) else y
+            x = E.tobv(x, bits); y = E.tobv(y, bits)
+            if signed:
+                c = (x >= y) if ismax else (x <= y)
+            else:
+                c = z3.UGE(x, y) if ismax else z3.ULE(x, y)
+            return z3.If(c, x, y)
+        return h
+    for b in (8, 16, 32, 64):
+        I['llvm.smax.i%d' % b] = mk_minmax(b, True, True)
+        I['llvm.smin.i%d' % b] = mk_minmax(b, True, False)
+        I['llvm.umax.i%d' % b] = mk_minmax(b, False, True)
+        I['llvm.umin.i%d' % b] = mk_minmax(b, False, False)
+    def i_abs64(E, st, fr, ins, args):
+        x = args[0]
+        if type(x) is int:
+            return ((1 << 64) - x) & mask(64) if x >> 63 else x
+        if x is UNDEF:
+            return UNDEF
+        return z3.If(x < 0, -x, x)
+    I['llvm.abs.i64'] = i_abs64
 
 
     # ---- more allocation
